@@ -64,6 +64,21 @@ def check_query(sql, tags, dbs, duck, res, record, full_api_on=()):
         return
     order_pos = oe.order_positions(tree)
     tables = oe.tables_of(tree, SCHEMA)
+    # LIMIT / OFFSET under an order that is not total: only the number of rows and their membership in the unlimited
+    # result are determined
+    free_limit = None
+    top = tree
+    if isinstance(top, exp.Query) and (top.args.get("limit") or top.args.get("offset")) and not oe.order_is_total(top):
+        try:
+            lim = int(top.args["limit"].expression.this) if top.args.get("limit") else None
+            off = int(top.args["offset"].expression.this) if top.args.get("offset") else 0
+            unl = top.copy()
+            unl.set("limit", None)
+            unl.set("offset", None)
+            free_limit = (lim, off, unl.sql("sqlite"))
+        except Exception:
+            res["refused"] += 1
+            return
     for di, data in enumerate(dbs(tables)):
         res["evaluations"] += 1
         try:
@@ -87,6 +102,26 @@ def check_query(sql, tags, dbs, duck, res, record, full_api_on=()):
                 pass
         s = oe.Sqlite({t: SCHEMA[t] for t in tables}, data)
         try:
+            if free_limit is not None:
+                lim, off, unl_sql = free_limit
+                try:
+                    _, urows = s.run(unl_sql)
+                except oe.EngineError:
+                    res["engines_reject"] += 1
+                    continue
+                from collections import Counter
+
+                want_n = max(0, len(urows) - off)
+                if lim is not None:
+                    want_n = min(want_n, lim)
+                got, full = Counter(oe.norm_rows(rows)), Counter(oe.norm_rows(urows))
+                if len(rows) != want_n:
+                    record(f"wrong_result|{'+'.join(tags)}", tags, sql, data,
+                           f"executor returned {len(rows)} row(s) {oe.norm_rows(rows)[:4]}; LIMIT {lim} OFFSET {off} of the {len(urows)}-row unlimited result {oe.norm_rows(urows)[:6]} has {want_n}")
+                elif any(got[r] > full[r] for r in got):
+                    record(f"wrong_result|{'+'.join(tags)}", tags, sql, data,
+                           f"executor returned {oe.norm_rows(rows)[:4]}, not rows of the unlimited result {oe.norm_rows(urows)[:6]}")
+                continue
             try:
                 sn, srows = s.run(sql)
                 s_ok = True
@@ -202,7 +237,7 @@ def run(ctx: Ctx) -> None:
             "rule": f"every G_exec query with cost <= {k} ({len(qs)} queries: scan/filter/project, inner/left/right/full/cross/self joins with "
                     "equality / inequality / residual / constant / OR conditions, USING, GROUP BY + 7 aggregates, HAVING, DISTINCT, ORDER BY with "
                     "NULLS FIRST/LAST, LIMIT/OFFSET, UNION/INTERSECT/EXCEPT [ALL], IN / NOT IN / EXISTS / scalar subqueries correlated or not, "
-                    f"CTEs used once or twice, derived tables) x EVERY database with <= {r} rows per mentioned table over {{NULL,1,2}} "
+                    f"CTEs used once or twice, derived tables, LIMIT / OFFSET without a total order judged by row count and containment) x EVERY database with <= {r} rows per mentioned table over {{NULL,1,2}} "
                     "(55 per table" + ("; quick: for two-table queries with two constructs the 1000 of 3025 instances in which one table has <= 1 row" if quick else "") + ") + a rich instance, compared with SQLite (every case) and DuckDB (rich instance, SQLite disagreements "
                     "and SQLite-rejected queries). non-trivial = agreeing results that are empty or contain a NULL.",
             "queries": res["queries"],
